@@ -39,6 +39,14 @@ PROFILE = gf.make_profile(
     twin_loops=45, perfect_nest=35, helpers=(0, 1), nstmts=(2, 5))
 
 
+NEST_PROFILE = gf.make_profile(
+    kinds=dict(PROFILE["kinds"]), perfect_nest=85, triangular=5,
+    helpers=(0, 0), nstmts=(1, 4))
+FUSE_PROFILE = gf.make_profile(
+    kinds=dict(PROFILE["kinds"]), twin_loops=85, perfect_nest=20,
+    helpers=(0, 0), nstmts=(1, 4))
+
+
 def _T():
     from psyclone.psyir import transformations as T
     return T
@@ -81,15 +89,15 @@ def _anc_loop(node):
 SPEC = {
     "fuse": dict(make=lambda: _T().LoopFuseTrans(), candidates=fuse_pairs,
                  apply=lambda t, tgt, o: t.apply(tgt[0], tgt[1], o),
-                 loop_of=lambda tgt: tgt[0]),
+                 loop_of=lambda tgt: tgt[0], profile=FUSE_PROFILE),
     "swap": dict(make=lambda: _T().LoopSwapTrans(), candidates=nests,
-                 loop_of=lambda tgt: tgt),
+                 loop_of=lambda tgt: tgt, profile=NEST_PROFILE),
     "chunk": dict(make=lambda: _T().ChunkLoopTrans(), candidates=loops,
                   loop_of=lambda tgt: tgt,
                   options=lambda draw: {"chunksize":
                                         draw(st.integers(1, 9))}),
     "tile": dict(make=lambda: _T().LoopTiling2DTrans(), candidates=nests,
-                 loop_of=lambda tgt: tgt,
+                 loop_of=lambda tgt: tgt, profile=NEST_PROFILE,
                  options=lambda draw: {"tilesize": draw(st.integers(1, 6))}),
     "hoist": dict(make=lambda: _T().HoistTrans(),
                   candidates=loop_assignments, loop_of=_anc_loop),
